@@ -92,6 +92,9 @@ func Profile(name string, seed int64, tier string) HistOpts {
 	case "rewardtime":
 		o.TimeMode = 1
 	}
+	if BlocksOverride > 0 {
+		o.Blocks = BlocksOverride
+	}
 	return o
 }
 
@@ -159,10 +162,20 @@ func runOne(profile string, seed int64, tier, driver, keepDir string) HistResult
 	return res
 }
 
+// ExactSeeds, when set, replaces the seeds derived from the base seed (used to re-run particular histories).
+var ExactSeeds []int64
+
+// BlocksOverride, when > 0, replaces the number of blocks of the profile (used by the search for a failing input:
+// the same history continued for longer, e.g. until funds mature).
+var BlocksOverride int
+
 // Campaign runs n histories of a profile in parallel.
 func Campaign(profile string, baseSeed int64, n int, tier, driver, keepDir string, par int) CampaignResult {
 	start := time.Now()
 	out := CampaignResult{Stats: map[string]int{}}
+	if len(ExactSeeds) > 0 {
+		n = len(ExactSeeds)
+	}
 	results := make([]HistResult, n)
 	var wg sync.WaitGroup
 	sem := make(chan struct{}, par)
@@ -172,7 +185,11 @@ func Campaign(profile string, baseSeed int64, n int, tier, driver, keepDir strin
 		go func(i int) {
 			defer wg.Done()
 			defer func() { <-sem }()
-			results[i] = runOne(profile, baseSeed*1000+int64(i), tier, driver, keepDir)
+			sd := baseSeed*1000 + int64(i)
+			if len(ExactSeeds) > 0 {
+				sd = ExactSeeds[i]
+			}
+			results[i] = runOne(profile, sd, tier, driver, keepDir)
 		}(i)
 	}
 	wg.Wait()
